@@ -59,8 +59,9 @@ ASSUMPTIONS = [
     "an entry is judged for provenance only if every non-constant channel is a bit-exact copy of a channel of one source item",
     "operations whose plain-tensor execution raises are outside the domain (not enabled)",
     "programs are not continued from plain-Tensor results nor from results that already violated the property",
-    "values are expected under the affine map the program applied so far (identity also once the untouched `other` operand was "
-    "combined); an entry that decodes only under an EARLIER map of the same program holds stale data (problem stale-data)",
+    "values of an entry are expected under a map reachable for its provenance: the composition of all elementwise steps, or - for "
+    "entries of the untouched `other` operand - of the steps applied since it was combined; an entry that decodes only under a map "
+    "that an IN-PLACE step of the program has overwritten in the value itself holds stale data (problem stale-data)",
     "alias histories: a deep copy (copy.deepcopy, pickle, torch.save/load) preserves type, data, grids and axes durably: what a "
     "reader of one side sees must not change when the other side is edited in place; shallow copies are not judged",
     "in-place SHAPE operations (transpose_, squeeze_, ...) return plain tensors and are outside the statement: not in the alphabet",
@@ -859,20 +860,21 @@ def decode_entry(U: Universe, arr: np.ndarray, affs):
     return ("item", next(iter(found)), intact)
 
 
-def entry_verdicts(U: Universe, R, aff, foreign=True, stale=()):
-    """Decode every entry.  Values are expected under the affine map `aff` applied so far; the identity map is also
-    admissible once a foreign operand (the `other` value, which no operation of the program has touched) was combined.
-    An entry that decodes only under an EARLIER map of the program holds values the value no longer contains:
+def entry_verdicts(U: Universe, R, affs, stale=()):
+    """Decode every entry.  `affs` = the affine maps that are reachable for SOME provenance of an entry: the composition of
+    all elementwise steps (entries that descend from the initial value) and, for every time the untouched `other` value was
+    combined, the composition of the steps applied since then.  `stale` = maps that an IN-PLACE step of the program has
+    overwritten in the value itself: an entry that decodes only under such a map holds values the value no longer contains:
     ("stale", item)."""
     data = R.as_subclass(Tensor).detach()
     arr = data.double().numpy()
     entries = arr if is_batch(R) else arr[None]
-    affs = [aff] + ([(1, 0)] if (foreign and aff != (1, 0)) else [])
+    affs = [a for a in affs if a is not None]
     out = []
     for e in entries:
         v = decode_entry(U, e, affs)
         if v == ("undef", "channel-not-a-source-channel"):
-            old = [a for a in stale if a not in affs]
+            old = [a for a in stale if a is not None and a not in affs]
             if old:
                 w = decode_entry(U, e, old)
                 if w[0] == "item":
@@ -881,7 +883,7 @@ def entry_verdicts(U: Universe, R, aff, foreign=True, stale=()):
     return out
 
 
-def judge_value(U: Universe, kind: str, R, aff, mixed=False, regrid=False, foreign=True, stale=()):
+def judge_value(U: Universe, kind: str, R, aff, mixed=False, regrid=False, lineages=(), stale=()):
     """Judge ONE typed result from its own data.  -> (problems [(name, detail)], obs tuple, undef reasons)"""
     from deepali.core.grid import Grid
 
@@ -948,7 +950,7 @@ def judge_value(U: Universe, kind: str, R, aff, mixed=False, regrid=False, forei
         items = ["m"]
     else:
         any_item = False
-        for k, verdict in enumerate(entry_verdicts(U, R, aff, foreign, stale)):
+        for k, verdict in enumerate(entry_verdicts(U, R, [aff] + list(lineages), stale)):
             if verdict[0] == "stale":
                 problems.append(("stale-data", f"entry {k} holds the values item {verdict[1]} had BEFORE an in-place operation of the program (the value itself no longer contains them)"))
                 items.append("s")
@@ -1037,8 +1039,8 @@ class Run:
         self.aff = (1, 0)
         self.mixed = False  # an entry holds channels of items with different grids (provenance then undefined)
         self.regrid = False  # grid_(X) was applied: every entry of the value carries the grid set last
-        self.foreign = False  # the untouched `other` value was combined: identity-mapped values are legitimate
-        self.past = []  # affine maps the value had earlier in the program
+        self.lineages = []  # affine maps of entries that came from the untouched `other` value (one per combination)
+        self.stale = []  # maps that an in-place elementwise step has overwritten in the value itself
 
     def step(self, name):
         """-> ("disabled", exc) | ("raises", exc) | ("ok", impl_result, plain_result, new_aff, in_type)"""
@@ -1052,17 +1054,30 @@ class Run:
             return ("raises", r, in_type)
         return ("ok", r, pr, aff_step(self.aff, opaff), in_type)
 
+    def track(self, name, aff):
+        """Reference state after operation `name` (new map `aff` of the main lineage): maps of the foreign lineages and
+        maps overwritten in place."""
+        opaff = OPS[name][2]
+        inplace = OPS[name][0] == "elementwise" and name.split("(")[0].endswith("_") and isinstance(opaff, tuple)
+        if inplace:
+            for m in [self.aff] + self.lineages:
+                if m is not None and m not in self.stale:
+                    self.stale.append(m)
+        self.lineages = [aff_step(m, opaff) for m in self.lineages]
+        if "other" in name:
+            self.lineages.append((1, 0))  # the entries of `other` enter untouched
+        admissible = [aff] + self.lineages
+        self.stale = [m for m in self.stale if m not in admissible]
+
     def advance(self, r, pr, aff, pick):
         els, _ = elements(r)
         pels, _ = elements(pr)
         idx = 0 if pick is None else pick
         if idx >= len(els) or idx >= len(pels):
             return False
-        if self.aff is not None and aff != self.aff and self.aff not in self.past:
-            self.past.append(self.aff)
         self.x, self.p, self.aff = els[idx], pels[idx], aff
         if typed(self.x) and aff is not None and not self.mixed:
-            st, vs = guarded(entry_verdicts, self.U, self.x, aff)
+            st, vs = guarded(entry_verdicts, self.U, self.x, [aff] + list(self.lineages))
             if st == "ok" and any(v == ("undef", "mixture-of-items") for v in vs):
                 self.mixed = True
         return True
@@ -1090,8 +1105,6 @@ def execute(D, kind, steps, acc: Acc = None):
             # a single image combined with ANOTHER image (different grid) along channels / by broadcasting:
             # which grid such a result should carry is not promised -> provenance undefined from here on
             run.mixed = True
-        if "other" in name:
-            run.foreign = True
         if run.regrid and "other" in name:
             run.mixed = True  # entries with the re-set grid X combined with entries that keep their own grid: not tracked
         res = run.step(name)
@@ -1108,6 +1121,7 @@ def execute(D, kind, steps, acc: Acc = None):
                 info["obs"] = ("raises", type(e).__name__)
             return "ok" if last else "ended", out, info
         _, r, pr, aff, in_type = res
+        run.track(name, aff)
         if last:
             els, picks = elements(r)
             pels, _ = elements(pr)
@@ -1120,7 +1134,7 @@ def execute(D, kind, steps, acc: Acc = None):
                 info["copy"] = True
             for k, el in enumerate(els):
                 if typed(el):
-                    problems, obs, undefs = judge_value(run.U, run.kind, el, aff, run.mixed, run.regrid, run.foreign, [a for a in run.past + [run.aff] if a is not None and a != aff])
+                    problems, obs, undefs = judge_value(run.U, run.kind, el, aff, run.mixed, run.regrid, run.lineages, run.stale)
                     for problem, detail in problems:
                         out.append((sig_of(name, in_type, problem, run.layout), (f"element {k}: " if len(els) > 1 else "") + detail))
                     obs_all.append(obs)
